@@ -122,6 +122,21 @@ instantiates.  The verdict is computed with plain getattr on the called object
 (the documented rule); refused -> 0 invocations and SecurityError, otherwise the
 call runs without SecurityError.  Same obtain x wrapper x site grammar, the
 marker-free twin of the same construction must run.
+
+Ninth part, *names with a binding history*: the name the template calls was
+bound before in the same scope: to a macro definition (plain, with arguments,
+using caller, defined twice, aliased), an imported macro, a template module, a
+constant, a safe callable, a block set, a loop / with variable that is over, a
+macro of that name inside another macro; the prior binding is executed, sits in
+a branch that is not taken or in an empty loop, or comes after the call.  Then
+the name comes to hold the callable (set, tuple set, set in if, via a temporary,
+from-import with context, with, loop variable, macro parameter, render data,
+env.globals), all of it at top level or inside a macro / nested macro / block /
+for / if / with / call block / filter / set / autoescape body, an included
+template, an extends child block or a macro imported with context
+(vt/gen/c18_rebind.py).  The call sits at any site of the main grammar.  Same
+oracle: the unmarked twin must be invoked through the re-bound name by the same
+template; with the mark zero invocations and SecurityError.
 """
 from __future__ import annotations
 
@@ -129,6 +144,7 @@ import functools
 import json
 
 from vt.gen import c18_ccall as CC
+from vt.gen import c18_rebind as RB
 from vt.gen import c18_visible as VS
 from vt.gen import c18_wrapped as WR
 
@@ -146,7 +162,9 @@ TECHNIQUE = ("recording unsafe callables with an unmarked control twin over a co
              "the documented rule applied to the called object (both directions); the twin oracle over 24 ways "
              "of making the marker visible to attribute lookup (dict, class, property, descriptor, slot, "
              "__getattr__/__getattribute__, forwarding proxies, metaclass) x 3 marks x true/false, verdict "
-             "computed with getattr on the called object")
+             "computed with getattr on the called object; the twin oracle over names that were bound before in "
+             "the same scope (15 prior bindings x 12 rebindings x 14 scopes, prior executed or not, before or "
+             "after the call)")
 RULE = ("case = (obtain form x alias wrapper x call site x argument form x callable kind x mark "
         "x environment kind x sync/async x extension set [do only / i18n+do+loopcontrols+debug with "
         "gettext callables absent, old-style, new-style]); base coverage enumerates every (site, kind, mark) and "
@@ -212,8 +230,24 @@ RULE = ("case = (obtain form x alias wrapper x call site x argument form x calla
         "alters_data, override attribute] x value [true, false] x obtain x wrapper x site x arguments x "
         "environment kind x sync/async x extension set): every (form, mark, value) row with 3 (thorough: 8) "
         "rotating sites, the first at the print site, plus seeded sampling; counted only when the marker-free "
-        "twin of the same construction is invoked; expected verdict = getattr on the called object")
-LEVEL_TEXT = ("marker visibility: on every reached (form, mark, value) row the call was refused (0 invocations, "
+        "twin of the same construction is invoked; expected verdict = getattr on the called object; "
+        "binding-history cases = (prior binding of the called NAME in the same scope [15: none, macro definition "
+        "(plain / with arguments / using caller / defined twice / aliased), imported macro (from-import, "
+        "from-import-as), template module (import-as), set to a constant / a safe callable / a block, loop "
+        "variable and with variable that are over, macro of that name inside another macro] x is the prior "
+        "binding executed [plain, if true, if false, else branch not taken, empty loop] x how the name then comes "
+        "to hold the callable [set, tuple set, set in if, set via temporary, set twice, from-import-as / "
+        "from-import of the same name with context, with, loop variable, macro parameter, render data, "
+        "env.globals] x scope holding all of it [top level, macro body, nested macro body, block, for / if / "
+        "with body, call block body, filter / set / autoescape block, included template, extends child block, "
+        "macro imported with context] x order [prior first, prior value used first, prior after the call] x "
+        "name x obtain x site x arguments x callable kind x mark x environment kind x sync/async x extension "
+        "set): every (prior, rebinding, scope) row once with rotating guard / order (quick: print site and a "
+        "rotating site on alternating rows; thorough: 4 sites per row) plus seeded sampling; counted only when "
+        "the unmarked twin is invoked through the re-bound name by the very same template")
+LEVEL_TEXT = ("binding histories of the called name: 0 invocations and SecurityError on every reached (prior "
+              "binding, rebinding, scope, order) row, whatever the name held before in that scope; "
+              "marker visibility: on every reached (form, mark, value) row the call was refused (0 invocations, "
               "SecurityError) iff getattr on the called object shows a true marker, and ran otherwise; "
               "decorated callables: on every reached (chain, marker position, mark) row the call was refused "
               "(0 invocations, SecurityError) iff the called object itself shows a true marker / is rejected "
@@ -240,10 +274,27 @@ ASSUMPTIONS = [
     "flag combinations: the attribute values are the booleans True / False or the attribute is absent (other truthy values are not generated); 'on the object the template calls' means ordinary attribute lookup on that object (instance, then class, then base classes; a bound method shows the attributes of its function), which is how both documented markers (the unsafe decorator, func.alters_data = True) are written; attributes set only on the __call__ function of a callable object are not generated",
     "decorated callables: the verdict is that of the object the template calls: is_safe_callable documents 'callables are considered safe unless decorated with unsafe' and 'func.alters_data = True', both attributes of the called object; a marker on a function that the called object merely wraps counts only when the decorator copied it onto its product (functools.update_wrapper copies __dict__; partial, partialmethod and updated=() do not), and __wrapped__ is not followed. The identity deny-list override rejects exactly the listed objects. Invocation is recorded in the innermost function (the caches and partial are C code), for contextmanager functions in a plain function that returns the generator, for __wrapped__-elsewhere objects in the called object; arguments are hashable and include one positional argument (singledispatch)",
     "marker visibility: is_safe_callable documents the markers as attributes of the callable ('decorated with unsafe', 'func.alters_data = True'), so the verdict is what getattr(obj, name, False) gives on the object the template calls, whatever makes the attribute visible (instance, class, property, descriptor, __getattr__ / __getattribute__, a proxy forwarding attribute access to the wrapped callable, the metaclass for a class); the values are the booleans True / False, the lookup has no side effects and gives the same answer every time, properties and hooks never raise anything but AttributeError for names they do not know; proxies are called through their own __call__ (a proxy that is not itself callable is not generated)",
+    "binding histories: prior binding, rebinding and call sit in one template scope (plus the templates that scope imports from); the name is one of g / helper / fmt, never a name the engine defines; what the name held before is harmless (a macro, a template module, a constant, an unmarked function), so only the call through the final binding is judged",
     "extensions other than i18n, do, loopcontrols and debug are not loaded; only the resolved-name part runs with more than the do extension",
     "histories also require the reverse direction: once a mark or deny-list entry is removed the call must be let through again (reported under history-wrongly-blocked keys)",
 ]
 NSHARDS = {"quick": 16, "thorough": 16}
+#: floors of the ninth part (names with a binding history), about 1/4 of a quick
+#: run on the unchanged tree; the thorough tier runs 4 sites per row: 4 x
+REBIND_FLOORS_QUICK = {
+    "rebind_cases": 700, "rebind_security_errors": 700,
+    "rebind_same_scope_cases": 350, "rebind_same_scope_after_macro_cases": 140,
+    "rebind_macro_name_reused_cases": 380, "rebind_prior_not_executed_cases": 230,
+    "rebind_prior_value_used_before_cases": 230, "rebind_name_bound_before_cases": 600,
+    "rebind_name_bound_afterwards_cases": 45, "rebind_non_print_site_cases": 300,
+    "rebind_async_cases": 200, "rebind_override_env_cases": 350,
+    "rebind_mark:unsafe": 240, "rebind_mark:alters": 240, "rebind_mark:override": 240,
+    "rebind_guard:plain": 440, "rebind_guard:if_true": 45, "rebind_guard:if_false": 65,
+    "rebind_guard:else_not_taken": 80, "rebind_guard:empty_loop": 80,
+    **{"rebind_prior:" + k: 45 for k in RB.PRIOR},
+    **{"rebind_form:" + k: 55 for k in RB.REBIND},
+    **{"rebind_scope:" + k: 48 for k in RB.SCOPE},
+}
 BUDGET_S = {"quick": 16, "thorough": 300}
 FLOORS = {
     "quick": {"evaluations": 6000, "distinct": 3000,
@@ -294,7 +345,8 @@ FLOORS = {
                            "ccall_group:method_wrapper": 30, "ccall_group:operator_object": 50,
                            "ccall_group:partial": 50, "ccall_group:slot_wrapper": 30,
                            "ccall_policy:deny_name": 200, "ccall_policy:deny_c_level": 200,
-                           "ccall_policy:allow_python_level": 200}},
+                           "ccall_policy:allow_python_level": 200,
+                           **REBIND_FLOORS_QUICK}},
     "thorough": {"evaluations": 60000, "distinct": 30000,
                  "counters": {"twin_invocations": 30000, "marked_renders": 30000,
                               "security_errors": 30000, "async_cases": 8000,
@@ -349,7 +401,8 @@ FLOORS = {
                               "ccall_group:method_wrapper": 200, "ccall_group:operator_object": 300,
                               "ccall_group:partial": 300, "ccall_group:slot_wrapper": 200,
                               "ccall_policy:deny_name": 1200, "ccall_policy:deny_c_level": 1200,
-                              "ccall_policy:allow_python_level": 1200}},
+                              "ccall_policy:allow_python_level": 1200,
+                              **{k: 4 * v for k, v in REBIND_FLOORS_QUICK.items()}}},
 }
 
 # ------------------------------------------------------------------ grammar
@@ -2604,6 +2657,147 @@ def visible_random_case(rng):
         if visible_valid(c):
             return c
 
+# ------------------------------------------- names with a binding history
+# Ninth part: the name the template calls was bound before, in the same scope,
+# to something harmless (tables in vt/gen/c18_rebind.py).  Same twin oracle as
+# the main grammar: the unmarked twin reached through the very same template
+# must be invoked; with the mark: zero invocations and SecurityError.
+def rebind_compose(case):
+    args = case["args"]
+    callee = case["name"]
+
+    def fill(text):
+        return (text.replace("@@", f"{callee}({args})").replace("^^", callee)
+                .replace("ARGS", args))
+    return RB.compose(case, OBTAIN[case["obtain"]], SITES[case["site"]],
+                      SITE_TEMPLATES.get(case["site"], {}), fill)
+
+
+def rebind_render(case, marked):
+    from jinja2.exceptions import SecurityError
+
+    rec = Rec()
+    f, o = make_callable(case["kind"], case["mark"] if marked else None, rec)
+    source, templates = rebind_compose(case)
+    env = get_env(case["env"], case["async"], templates, case.get("ext", "do"))
+    data = {"f": f, "o": o, "d": {"f": f, "k": {"g": f}}, "l": [f], "t": (f,),
+            "nested": [{"f": [f]}]}
+    if case["rebind"] == "data":
+        data[case["name"]] = f
+    elif case["rebind"] == "global":
+        env.globals[case["name"]] = f
+    try:
+        out = env.from_string(source).render(**data)
+        exc = None
+    except SecurityError as e:
+        out, exc = None, ("SecurityError", str(e)[:200])
+    except Exception as e:
+        out, exc = None, (type(e).__name__, str(e)[:200])
+    finally:
+        if case["rebind"] == "global":
+            env.globals.pop(case["name"], None)
+    return rec.calls, out, exc, source, templates
+
+
+def rebind_valid(case):
+    if case["kind"] == "async_func" and not case["async"]:
+        return False
+    if case["mark"] == "override" and case["env"] != "override":
+        return False
+    return True
+
+
+def run_rebind_case(ctx, case, count=True):
+    """-> True if reached (the unmarked twin is invoked through the re-bound name)."""
+    calls, out, exc, source, templates = rebind_render(case, marked=False)
+    if count:
+        ctx.ev()
+        ctx.count("rebind_twin_renders")
+    if calls == 0 or (exc is not None and exc[0] == "SecurityError"):
+        if count:
+            ctx.count("rebind_unreached")
+        return False
+    mcalls, mout, mexc, _, _ = rebind_render(case, marked=True)
+    prior, guard, rebind, order = case["prior"], case["guard"], case["rebind"], case["order"]
+    executed = prior != "none" and guard not in RB.NOT_EXECUTED
+    if count:
+        ctx.ev()
+        ctx.count("rebind_cases")
+        ctx.count("rebind_prior:" + prior)
+        ctx.count("rebind_guard:" + guard)
+        ctx.count("rebind_form:" + rebind)
+        ctx.count("rebind_scope:" + case["scope"])
+        ctx.count("rebind_order:" + order)
+        ctx.count("rebind_mark:" + case["mark"])
+        if prior != "none":
+            ctx.count("rebind_name_bound_before_cases" if order != "prior_last"
+                      else "rebind_name_bound_afterwards_cases")
+        if prior in RB.MACRO_PRIORS:
+            ctx.count("rebind_macro_name_reused_cases")
+        if prior != "none" and rebind in RB.SAME_SCOPE_REBINDS and order != "prior_last":
+            ctx.count("rebind_same_scope_cases")
+            if prior in RB.MACRO_PRIORS and executed:
+                ctx.count("rebind_same_scope_after_macro_cases")
+        if prior != "none" and not executed:
+            ctx.count("rebind_prior_not_executed_cases")
+        if executed and order == "prior_used_first":
+            ctx.count("rebind_prior_value_used_before_cases")
+        if case["site"] != "print":
+            ctx.count("rebind_non_print_site_cases")
+        if case["async"]:
+            ctx.count("rebind_async_cases")
+        if case["env"] == "override":
+            ctx.count("rebind_override_env_cases")
+        ctx.dist(["rebind"] + [case[k] for k in ("name", "prior", "guard", "rebind", "scope", "order", "obtain",
+                                                 "site", "args", "kind", "mark", "env", "async")]
+                 + [case.get("ext", "do")])
+    full = dict(case, rebound=True, source=source, templates=templates)
+    mech = (f"prior={prior}:guard={guard}:rebind={rebind}:order={order}:scope={case['scope']}:"
+            f"mark={case['mark']}")
+    info = (f"{source!r} {templates or ''} (env {case['env']}, extensions {case.get('ext', 'do')}, "
+            f"async={case['async']}, callable {case['kind']}/{case['mark']}); the name {case['name']!r} was "
+            f"bound before by {prior} ({guard}) and holds the callable through {rebind}")
+    if mcalls:
+        ctx.violation("rebound-name-invoked:" + mech,
+                      f"marked callable was invoked {mcalls}x by {info}; outcome {mexc or mout!r}", full)
+    elif mexc is None or mexc[0] != "SecurityError":
+        ctx.violation("rebound-name-no-security-error:" + mech,
+                      f"control twin is invoked {calls}x but with the mark {info} gave {mexc or mout!r} "
+                      f"instead of SecurityError", full)
+    elif count:
+        ctx.count("rebind_security_errors")
+    return True
+
+
+def rebind_case_for(j, row, site):
+    prior, guard, rebind, scope, order = row
+    obs = list(OBTAIN)
+    mark = MARKS[j % 3]
+    kind = KINDS[(j // 3) % len(KINDS)]
+    return {"name": RB.NAMES[(j // 5) % len(RB.NAMES)], "prior": prior, "guard": guard, "rebind": rebind,
+            "scope": scope, "order": order,
+            "obtain": "name" if rebind in ("data", "global") else obs[j % len(obs)], "site": site,
+            "args": ARGS[j % len(ARGS)], "kind": kind, "mark": mark,
+            "env": "override" if mark == "override" else ENVS[(j // 2) % 3],
+            "async": kind == "async_func" or j % 4 == 0, "ext": EXTS[(j // 3) % 4]}
+
+
+def rebind_random_case(rng):
+    while True:
+        mark = rng.choice(MARKS)
+        prior = rng.choice(list(RB.PRIOR))
+        rebind = rng.choice(list(RB.REBIND))
+        c = {"name": rng.choice(RB.NAMES), "prior": prior,
+             "guard": "plain" if prior == "none" or rng.random() < 0.5 else rng.choice(list(RB.GUARD)),
+             "rebind": rebind, "scope": rng.choice(list(RB.SCOPE)),
+             "order": "prior_first" if prior == "none" else rng.choice(RB.ORDER),
+             "obtain": "name" if rebind in ("data", "global") else rng.choice(list(OBTAIN)),
+             "site": rng.choice(list(SITES)), "args": rng.choice(ARGS), "kind": rng.choice(KINDS),
+             "mark": mark, "env": "override" if mark == "override" else rng.choice(ENVS),
+             "async": rng.random() < 0.3, "ext": rng.choice(EXTS)}
+        if rebind_valid(c):
+            return c
+
 
 def run(ctx):
     import warnings
@@ -2775,6 +2969,32 @@ def run(ctx):
         run_visible_case(ctx, visible_random_case(rng))
     ctx.count("visible_core_cases", nvs)
     ctx.extra["visible_part_seconds_all_shards"] = round(ctx.elapsed() - t_vs, 2)
+    # names with a binding history: (prior, guard, rebind, scope, order) rows x rotating sites
+    nrb = 0
+    rs = 0
+    per_row = 1 if quick else 4
+    t_rb = ctx.elapsed()
+    for i, row in enumerate(RB.rows()):
+        if not ctx.mine(i):
+            continue
+        for k in range(per_row):
+            j = i * 7 + k * 11 + ctx.seed
+            # quick: every second row of a shard at the print site (always reached)
+            at_print = (i // ctx.nshards + ctx.seed) % 2 == 0 if quick else k == 0
+            case = rebind_case_for(j, row, "print" if at_print else sites[j % len(sites)])
+            if not rebind_valid(case):
+                case = dict(case, **{"async": True}) if case["kind"] == "async_func" else case
+            if not rebind_valid(case):
+                continue
+            nrb += 1
+            if run_rebind_case(ctx, case) and rs < 1 and ctx.shard in (1, 2) and case["prior"] != "none":
+                rs += 1
+                ctx.sample(dict(case, source=rebind_compose(case)[0]))
+    rng = ctx.rng("rebindrand")
+    for _ in range(30 if quick else 600):
+        run_rebind_case(ctx, rebind_random_case(rng))
+    ctx.count("rebind_core_cases", nrb)
+    ctx.extra["rebind_part_seconds_all_shards"] = round(ctx.elapsed() - t_rb, 2)
     rng = ctx.rng("rand")
     n_max = 900 if quick else 40000
     i = 0
@@ -2802,6 +3022,8 @@ def replay(ctx, case):
         run_wrapped_case(ctx, case, count=False)
     elif case.get("visible"):
         run_visible_case(ctx, case, count=False)
+    elif case.get("rebound"):
+        run_rebind_case(ctx, case, count=False)
     elif case.get("bm"):
         run_bm_case(ctx, case, count=False)
     elif case.get("cc"):
